@@ -79,6 +79,6 @@ TNext == /\ l <= Len(R.events) /\ l' = l + 1 /\ tid' = tid
               /\ prev' = e.obs
               /\ bad' = LookupClauses(e.obs) \cup StepClauses(e, e.obs, prev)
 TSpec == TInit /\ [][TNext]_tvars
-Report == /\ (bad # {} => PrintT(<<"VERDICT", tid, l - 1, bad>>))
+Report == /\ (bad # {} => PrintT(<<"VERDICT", ToString(<<tid, l - 1, bad>>)>>))     \* one line per print
           /\ (l = Len(R.events) + 1 => PrintT(<<"DONE", tid>>))
 =============================================================================
